@@ -68,6 +68,10 @@ fn coq_err(kind: &str, msg: &str) -> String {
 }
 
 fn exec_line(line: &str) -> String {
+    if !line.contains('#') {
+        // a line of the public-API harness (c26m replay): not for this binary
+        return format!("trivial-skip\t{}\t{{| v_graph := mk_graph [] []; v_meta := []; v_reqs := [mkrr false [] [] RNotRun] |}}", line);
+    }
     let (gtxt, rtxt) = line.split_once('#').unwrap();
     let gs = GraphSpec::parse(gtxt);
     let reqs: Vec<Req> = rtxt.split('/').filter(|s| !s.is_empty()).map(parse_req).collect();
@@ -133,10 +137,15 @@ fn exec_line(line: &str) -> String {
     )
 }
 
-fn timeout_line(line: &str, _probe: bool) -> String {
-    let (gtxt, _) = line.split_once('#').unwrap();
+fn fail_line(line: &str, kind: Fail) -> String {
+    let (gtxt, _) = line.split_once('#').unwrap_or(("", ""));
     let gs = GraphSpec::parse(gtxt);
-    format!("anomaly-timeout\t{}\t{{| v_graph := {}; v_meta := []; v_reqs := [mkrr false [] [] RTimeout] |}}", line, gs.coq())
+    let (o, t) = match kind {
+        Fail::Hang => ("RTimeout", "anomaly-timeout"),
+        Fail::Crash => ("RPanic", "anomaly-crash"),
+        Fail::Skip => ("RNotRun", "notrun"),
+    };
+    format!("{}\t{}\t{{| v_graph := {}; v_meta := []; v_reqs := [mkrr false [] [] {}] |}}", t, line, gs.coq(), o)
 }
 
 // ---------------------------------------------------------------- generator
@@ -269,7 +278,7 @@ fn mutate(rng: &mut SplitMix64, g: &Gen, r: &mut Req, class: u64) {
         12 => { let k = pick_in(rng, r); r.ins[k].seq = !r.ins[k].seq; }                // sequence <-> tensor
         13 => { let k = pick_in(rng, r); r.ins[k].shape.push(1); }                      // rank mismatch
         14 => { let k = pick_in(rng, r); if r.ins[k].shape.is_empty() { r.ins[k].shape.push(2) } else { r.ins[k].shape.pop(); } }
-        15 => { let k = pick_in(rng, r); for d in r.ins[k].shape.iter_mut() { *d += 1; } } // dim mismatch (fixed dims)
+        15 => { let k = pick_in(rng, r); let down = rng.chance(1, 2); for d in r.ins[k].shape.iter_mut() { if down && *d > 1 { *d -= 1 } else { *d += 1 } } } // dim mismatch (fixed dims), both directions
         16 => r.ins.reverse(),
         17 => r.outs.reverse(),
         18 => r.outs.push(g.inputs[0]),                                                 // a graph input requested as output
@@ -325,5 +334,5 @@ fn generate(seed: u64, n: usize, _tier: &str, out: &mut dyn Write) {
 }
 
 fn main() {
-    harness_main(generate, exec_line, timeout_line, 10000);
+    harness_main(generate, exec_line, fail_line, 10000);
 }
